@@ -109,6 +109,13 @@ pub struct ExPlan {
     /// there (valid prefix, one error, silence) - never a packet the terminal did not send.
     #[serde(default)]
     pub read_errs: Vec<(u32, u8)>,
+    /// One transient write error: when the client has written `.0` bytes, the next write fails with
+    /// EINTR (0) / EAGAIN as an error (1) / ETIMEDOUT (2); a frame that straddles the position goes out
+    /// as a short write first. Two readings: the library carried on where it was (the run equals the
+    /// run without the error), or the exchange failed there (its output is exactly the first `.0`
+    /// bytes of the error-free output, the items a prefix plus one error) - never a byte twice.
+    #[serde(default)]
+    pub write_err: Option<(u32, u8)>,
     /// Label of the injected fault (for signatures / evidence).
     pub fault: String,
 }
@@ -130,6 +137,7 @@ impl ExPlan {
             malformed_replies: vec![],
             wellformed: false,
             read_errs: vec![],
+            write_err: None,
             fault: String::new(),
         }
     }
@@ -503,6 +511,13 @@ pub fn execute(plan: &ExPlan) -> ExRun {
                 .collect(),
         );
     }
+    if let Some((off, k)) = plan.write_err {
+        handle.set_write_errors(vec![(off as u64, match k {
+            0 => std::io::ErrorKind::Interrupted,
+            1 => std::io::ErrorKind::WouldBlock,
+            _ => std::io::ErrorKind::TimedOut,
+        })]);
+    }
     if plan.epipe_at == Some(0) {
         handle.with_io(|io| io.fail_writes());
     }
@@ -582,6 +597,9 @@ pub fn long_stall_offsets(plan: &ExPlan) -> Vec<u32> {
 }
 
 pub fn run_and_judge(plan: &ExPlan, want_trace: bool) -> RunOut {
+    if let Some((off, _)) = plan.write_err {
+        return judge_write_error(plan, off as usize, want_trace);
+    }
     let mut readings: Vec<(bool, Option<u32>)> = vec![(false, None)];
     if ack_carries_data(plan) {
         readings.insert(0, (true, None));
@@ -617,6 +635,77 @@ pub fn run_and_judge(plan: &ExPlan, want_trace: bool) -> RunOut {
         }
     }
     first.unwrap()
+}
+
+/// A transient write error at byte `off` of the client's output (see `ExPlan::write_err`): the run is
+/// compared with the run of the same plan without the error (which other families judge on its own).
+fn judge_write_error(plan: &ExPlan, off: usize, want_trace: bool) -> RunOut {
+    let mut clean = plan.clone();
+    clean.write_err = None;
+    let base = execute(&clean);
+    let full = base.handle.written();
+    let run = execute(plan);
+    let mut out = RunOut::new();
+    {
+        let log = run.log.lock().unwrap();
+        out.trace_hash = log.hash();
+        if want_trace {
+            out.trace = log.render();
+        }
+    }
+    out.stats.add_fired(&run.handle.fired());
+    out.nontrivial = true;
+    let info = seqs::info(plan.seq);
+    let mut sh = Hasher64::default();
+    sh.str(info.name);
+    sh.str("write_err");
+    sh.u64(off as u64);
+    out.shape = sh.finish();
+    let sig = format!("{}/write_err", info.name);
+    if let Some((loc, msg)) = &run.panic {
+        out.fail("panic", format!("{}@{}", info.name, crate::framework::panic_sig(loc, msg)), format!("client panicked at {loc}: {msg}"));
+        return out;
+    }
+    if base.panic.is_some() || base.outcome != "done" {
+        return out; // the error-free run is somebody else's finding
+    }
+    let written = run.handle.written();
+    let rec = &run.rec;
+    let base_rec = &base.rec;
+    let oks: Vec<&String> = rec.items.iter().filter_map(|i| i.res.as_ref().ok()).collect();
+    let base_oks: Vec<&String> = base_rec.items.iter().filter_map(|i| i.res.as_ref().ok()).collect();
+    let n_err = rec.items.iter().filter(|i| i.res.is_err()).count();
+    let base_err = base_rec.items.iter().filter(|i| i.res.is_err()).count();
+    if off >= full.len() || (written == full && oks == base_oks && n_err == base_err && run.outcome == "done") {
+        // never reached, or reading 1: the library carried on where it was
+        out.stats.hit("probe.write_error_carried_on_or_not_reached");
+        return out;
+    }
+    // reading 2: the exchange failed there - not a byte beyond, not a byte twice
+    if written[..] != full[..off] {
+        out.fail(
+            if written.len() > off { "bytes_written_twice_or_beyond" } else { "output_lost" },
+            sig,
+            format!(
+                "a write failed transiently after {off} bytes of output; the client's output is {} ({} bytes) - neither the error-free output {} ({} bytes) nor its first {off} bytes",
+                crate::conn::hex(&written[..written.len().min(40)]),
+                written.len(),
+                crate::conn::hex(&full[..full.len().min(40)]),
+                full.len()
+            ),
+        );
+        return out;
+    }
+    if run.outcome != "done" || n_err != 1 || rec.items.last().map(|i| i.res.is_ok()).unwrap_or(true) || oks.len() > base_oks.len() || oks.iter().zip(base_oks.iter()).any(|(a, b)| a != b) {
+        out.fail(
+            if n_err == 0 { "error_swallowed" } else { "error_repeated" },
+            sig,
+            format!("a write failed transiently after {off} bytes and the client stopped writing there: the exchange failed, so the caller gets the valid prefix and exactly one error (got {} ok, {} errors, outcome {})", oks.len(), n_err, run.outcome),
+        );
+    } else {
+        out.stats.hit("probe.write_error_failed_the_exchange");
+    }
+    out
 }
 
 fn run_and_judge_with(plan: &ExPlan, want_trace: bool, ack_with_data_is_positive: bool, gave_up_at: Option<u32>) -> RunOut {
